@@ -351,10 +351,12 @@ Fixpoint del (n : text) (d : fsmap) : fsmap :=
 Definition set_entry (n : text) (e : entry) (d : fsmap) : fsmap := (n, e) :: del n d.
 
 Inductive op :=
-| Write (name : text) (content : N)      (* with path.open('wb') as f: f.write(..)   -- truncating; FOLLOWS a symlink *)
+| Write (name : text) (content : N)      (* with path.open('wb') as f: f.write(..)   -- truncating; FOLLOWS a symlink
+                                            (static files, summary pages, search index, inventory; pages before 5e9fb91) *)
+| WritePage (name : text) (content : N)  (* writer._writeDocsFor since 5e9fb91: if path.is_symlink(): path.unlink(); then open('wb') *)
 | Relink (name target : text).           (* try: path.unlink() except FileNotFoundError: pass; path.symlink_to(target) *)
 
-Definition op_name (o : op) : text := match o with Write n _ => n | Relink n _ => n end.
+Definition op_name (o : op) : text := match o with Write n _ => n | WritePage n _ => n | Relink n _ => n end.
 
 Definition step (d : fsmap) (o : op) : fsmap :=
   match o with
@@ -363,14 +365,21 @@ Definition step (d : fsmap) (o : op) : fsmap :=
       | Some (Symlink t) => set_entry t (Bytes c) d      (* open() follows the link (one level modelled) *)
       | _ => set_entry n (Bytes c) d
       end
+  | WritePage n c => set_entry n (Bytes c) d             (* a link found there is removed first *)
   | Relink n t => set_entry n (Symlink t) d
   end.
 Definition apply_ops (ops : list op) (d : fsmap) : fsmap := fold_left step ops d.
 
+(* the names opened with a symlink-following open() *)
 Definition write_names (ops : list op) : list text :=
-  flat_map (fun o => match o with Write n _ => [n] | Relink _ _ => [] end) ops.
+  flat_map (fun o => match o with Write n _ => [n] | _ => [] end) ops.
+Definition page_names (ops : list op) : list text :=
+  flat_map (fun o => match o with WritePage n _ => [n] | _ => [] end) ops.
 Definition relink_names (ops : list op) : list text :=
-  flat_map (fun o => match o with Relink n _ => [n] | Write _ _ => [] end) ops.
+  flat_map (fun o => match o with Relink n _ => [n] | _ => [] end) ops.
+(* the page writes as they were before 5e9fb91 *)
+Definition old_pages (ops : list op) : list op :=
+  map (fun o => match o with WritePage n c => Write n c | o => o end) ops.
 
 (* ------------------------------------------------------------------ TemplateLookup.add_templatedir
    Template.fromdir yields the files of a template directory in the order sorted(path.iterdir(), key=lambda p: p.name)
@@ -412,7 +421,7 @@ Definition static_ops (lk : tlookup) : list op := map (fun e => Write (fst (snd 
            -> indices of objs in sorted order
      fn 2: ( 2 roots perm optname fn kinds kperm )  perm/kperm = iteration order of the set as indices into dedup
            -> ( project_name old_guess url_is_index symlink has_index is_root rootkinds )
-     fn 3: ( 3 ops prev )         op := ( 0 name content ) | ( 1 name target ) ; prev := list of ( name 0 content ) | ( name 1 target )
+     fn 3: ( 3 ops prev )         op := ( 0 name content ) | ( 2 name content ) page | ( 1 name target ) ; prev := list of ( name 0 content ) | ( name 1 target )
            -> final directory sorted by name
      fn 4: ( 4 last n ) -> ( ids last' )
      fn 6: ( 6 env opt now )      env/opt := () | ( seconds ) -> build time in seconds
@@ -458,6 +467,7 @@ Definition entry_of_sexp (s : sexp) : text * entry :=
    if Z.eqb (to_Z (nth_s 1 s)) 0 then Bytes (to_N (nth_s 2 s)) else Symlink (to_text (nth_s 2 s))).
 Definition op_of_sexp (s : sexp) : op :=
   if Z.eqb (to_Z (nth_s 0 s)) 0 then Write (to_text (nth_s 1 s)) (to_N (nth_s 2 s))
+  else if Z.eqb (to_Z (nth_s 0 s)) 2 then WritePage (to_text (nth_s 1 s)) (to_N (nth_s 2 s))
   else Relink (to_text (nth_s 1 s)) (to_text (nth_s 2 s)).
 
 Definition run (s : sexp) : sexp :=
